@@ -519,11 +519,33 @@ func (x *Exec) load(st *state, addr *Term, typ types.Type) *Term {
 			if e, ok := st.mem[a.Args[0].Key()]; ok {
 				v := e.Val
 				for i := len(names) - 1; i >= 0; i-- {
-					v = &Term{Op: "field", Name: names[i], Args: []*Term{v}}
+					v = fieldOf(v, names[i])
 				}
 				v.Type = typ
 				return v
 			}
+		}
+	}
+	// a whole struct whose fields were stored one by one: assemble it
+	if stt, ok := typ.Underlying().(*types.Struct); ok && stt.NumFields() <= 8 {
+		pre := "&" + pathKey(addr) + "."
+		some := false
+		for k := range st.mem {
+			if strings.HasPrefix(k, pre) {
+				some = true
+			}
+		}
+		if some {
+			c := &Term{Op: "composite", Type: typ}
+			var names []string
+			for i := 0; i < stt.NumFields(); i++ {
+				f := stt.Field(i)
+				sub := &Term{Op: "faddr", Name: f.Name(), Args: []*Term{addr}, Type: types.NewPointer(f.Type())}
+				c.Args = append(c.Args, x.load(st, sub, f.Type()))
+				names = append(names, f.Name())
+			}
+			c.Name = strings.Join(names, ",")
+			return c
 		}
 	}
 	ep := 0
@@ -583,7 +605,11 @@ func (x *Exec) simple(fr *frame, ins ssa.Instruction, st *state) {
 	case *ssa.Field:
 		base := x.val(fr, v.X)
 		fld := v.X.Type().Underlying().(*types.Struct).Field(v.Field)
-		fr.env[v] = &Term{Op: "field", Name: fld.Name(), Args: []*Term{base}, Type: v.Type()}
+		ft := fieldOf(base, fld.Name())
+		if ft.Type == nil {
+			ft.Type = v.Type()
+		}
+		fr.env[v] = ft
 	case *ssa.IndexAddr:
 		fr.env[v] = &Term{Op: "iaddr", Args: []*Term{x.val(fr, v.X), x.val(fr, v.Index)}, Type: v.Type()}
 	case *ssa.Index:
@@ -954,4 +980,16 @@ func knownNonNil(t *Term) bool {
 		return knownNonNil(t.Args[0])
 	}
 	return false
+}
+
+// fieldOf projects field name out of a struct-valued term.
+func fieldOf(v *Term, name string) *Term {
+	if v.Op == "composite" {
+		for i, n := range strings.Split(v.Name, ",") {
+			if n == name && i < len(v.Args) {
+				return v.Args[i]
+			}
+		}
+	}
+	return &Term{Op: "field", Name: name, Args: []*Term{v}}
 }
